@@ -755,6 +755,17 @@ class AddressCommand(TestCommand):
         {"name": "key-list", "type": ["string", "stringlist"], "required": True},
     ]
 
+    def args_as_tuple(self):
+        """Return arguments as a list."""
+        result = ("address", self.arguments["match-type"])
+        for name in ["header-list", "key-list"]:
+            value = self.arguments[name]
+            if isinstance(value, list) or value.startswith("["):
+                result += (tools.to_values(value),)
+            else:
+                result += (tools.unquote_string(value),)
+        return result
+
 
 class AllofCommand(TestCommand):
     accept_children = True
